@@ -122,8 +122,8 @@ PROPS["C07"] = {
                   "http_reader.rs, http_range_request.rs. Assumed: the HTTP transport (reqwest, hyper, TCP).",
 }
 PROPS["C08"] = {
-    "theorems": ["C08_http_items_exact", "C08_retry_resumes_at_first_missing_byte", "C08_retries_suffice", "C08_io_reader_exact"],
-    "suites": ["http", "ioread"],
+    "theorems": ["C08_http_items_exact", "C08_retry_resumes_at_first_missing_byte", "C08_retries_suffice", "C08_io_reader_exact", "C08_stream_complete_or_error", "C08_clone_over_unreliable_server"],
+    "suites": ["http", "ioread", "httpclone"],
     "rule": "cases: scripted server behaviours per request (refuse, cut after k bytes incl. 0, short clean end, extra bytes, wrong "
             "bytes, ok) x retry budgets 0..3 x chunk lists, read_chunks and read_at; local reader over a scripted file with "
             "short reads of any size and Pending at any poll, incl. ranges past EOF; items and request logs compared with the "
@@ -186,7 +186,7 @@ PROPS["C16"] = {
     "level_note": PROPS["C14"]["level_note"],
 }
 PROPS["C15"] = {
-    "theorems": ["C15_open_total", "C15_open_total_any_reader", "C15_accepted_archive_safe", "C15_scan_total"],
+    "theorems": ["C15_open_total", "C15_open_total_any_reader", "C15_accepted_archive_safe", "C15_scan_total", "C15_http_clone_total"],
     "suites": ["protodec", "tryinit", "hostile", "corrupt", "http", "clicorrupt", "httpclone"], "needs_cli": True,
     "rule": "cases: dictionary bytes (conforming, free-form, mutated, random, nested groups around the recursion limit) through "
             "the real prost decoder vs the model; archives with checksummed hostile fields (indexes, offsets, sizes, chunker "
@@ -205,7 +205,7 @@ PROPS["C15"] = {
 }
 PROPS["C04"] = {
     "theorems": ["C04_header_accept_implies", "C04_header_only", "C04_pinned_header_identity", "C04_payload_tamper_safe",
-                 "C04_pin_proceeds_only_if_equal", "C04_pin_checked_before_output"],
+                 "C04_pin_proceeds_only_if_equal", "C04_pin_checked_before_output", "C04_http_clone_any_server"],
     "suites": ["tryinit", "corrupt", "clirefuse", "clicorrupt", "httpclone"], "needs_cli": True,
     "rule": "cases: every single-bit flip and every truncation length of a small archive (exhaustive), sampled flips/truncations, "
             "payload swaps, overwrites, deletions, trailing garbage on larger ones, with and without seeds; scripted servers "
@@ -257,7 +257,7 @@ PROPS["C17"] = {
 }
 
 PROPS["C01"] = {
-    "theorems": ["C01_roundtrip", "C01_archive_records_source", "C01_input_delivery_irrelevant"],
+    "theorems": ["C01_roundtrip", "C01_archive_records_source", "C01_input_delivery_irrelevant", "C01_roundtrip_over_http"],
     "suites": ["clirt", "compress", "conform"], "needs_cli": True,
     "rule": "cases: generated sources (empty, 1 byte, shorter than window/min chunk, around min/max, duplicate heavy, > 1 MiB) x "
             "valid configurations (three chunkers, hash length 4..64, none/brotli/zstd/lzma at their levels, buffered-chunks 1..64) through "
